@@ -381,7 +381,7 @@ func propSerialProofs(t *rapid.T, c *cx) {
 	rep.Case(test, fmt.Sprintf("%s proof tau=%s p=%s z=%s reader=%s", c.name, hx(s.Tau), hxs(p), hx(pt), rk), true,
 		dedup(append(cls, "serial:OpeningProof", "reader:"+rk, scls))...)
 
-	ps, bz, bcls, _ := c.drawBatchInput(t, s, 8)
+	ps, bz, bcls, _ := c.drawBatchInput(t, s, 8, 0)
 	hb := c.batchOpen(t, s, ps, bz, nil, false, "sha256")
 	bnat := c.k.BatchProofNative(hb.Bp)
 	benc := encode(t, c.name+": BatchOpeningProof.WriteTo", bnat.(writerTo).WriteTo, z.g1c+4+len(ps)*z.fr)
@@ -570,6 +570,7 @@ func propVkReuse(t *rapid.T, c *cx) {
 		desc string
 	}
 	var jobs []job
+	maxBatch := 0
 	for i := 0; i < n; i++ {
 		switch rapid.IntRange(0, 3).Draw(t, "kind") {
 		case 0, 1:
@@ -587,11 +588,21 @@ func propVkReuse(t *rapid.T, c *cx) {
 			}, w, "multi " + u1.String() + " | " + u2.String()})
 		default:
 			u, _ := c.drawTuple(t, e, fmt.Sprintf("s%d", i), "")
-			// a batch of one: γ^0 = 1, the folded relation is the plain one
+			// a batch whose first claim is the drawn tuple (γ^0 = 1) and whose other m-1 claims have c_i = v_i,
+			// so the folded relation is the plain relation of the tuple; m around the block thresholds
+			m := rapid.SampledFrom([]int{1, 1, 2, 15, 16, 17, 32}).Draw(t, fmt.Sprintf("m%d", i))
 			d, pr := c.proofOf(u, false)
+			ds, vs := []inst.KPoint{d}, []*big.Int{u.V}
+			for j := 1; j < m; j++ {
+				v := bi(int64(1000*i + j))
+				ds, vs = append(ds, c.k.G1Base(v)), append(vs, v)
+			}
+			if m > maxBatch {
+				maxBatch = m
+			}
 			jobs = append(jobs, job{func() error {
-				return c.k.BatchVerifySinglePoint(s.S, []inst.KPoint{d}, inst.KBatchProof{H: pr.H, Vs: []*big.Int{u.V}}, u.Z, sha256.New())
-			}, e.Holds(u.C, u.H, u.V, u.Z), "batch1 " + u.String()})
+				return c.k.BatchVerifySinglePoint(s.S, ds, inst.KBatchProof{H: pr.H, Vs: vs}, u.Z, sha256.New())
+			}, e.Holds(u.C, u.H, u.V, u.Z), fmt.Sprintf("batch%d ", m) + u.String()})
 		}
 	}
 	key := fmt.Sprintf("%s vkreuse %s tau=%s", c.name, s.Kind, hx(s.Tau))
@@ -615,7 +626,11 @@ func propVkReuse(t *rapid.T, c *cx) {
 	for i := len(jobs) - 1; i >= 0; i-- {
 		check("second", i)
 	}
-	rep.Case("C11_VkReuse/"+c.name, key, true, scls, "history:vk_reuse", fmt.Sprintf("history:len=%d", 2*len(jobs)), fmt.Sprintf("history:accepts>0=%v", acc > 0))
+	cls := append([]string{scls, "history:vk_reuse", fmt.Sprintf("history:len=%d", 2*len(jobs)), fmt.Sprintf("history:accepts>0=%v", acc > 0)}, purityCls()...)
+	if maxBatch >= 16 {
+		cls = append(cls, "batch>=16")
+	}
+	rep.Case("C11_VkReuse/"+c.name, key, true, cls...)
 }
 
 func TestC11_VkReuse(t *testing.T) {
